@@ -1,9 +1,143 @@
-"""C03 concretiser: runs the bounded checks of storage_checks on the real storages"""
+"""C03 concretiser: the bounded checks of storage_checks on the real storages, plus connection-level scenarios.
+Bound (connection level): file and demo storage; a resolvable counter whose base revision is packed away while the
+writer's transaction is open; readCurrent on an object another connection changes, with and without a savepoint
+rollback (explicit rollback of an earlier savepoint / rollback of a savepoint taken before the connection joined)
+between the declaration and the commit."""
 import logging
+import os
+import shutil
+import tempfile
+import time
+
+import transaction
+from persistent import Persistent
 
 from . import storage_checks
+from .c10 import Counter
+
+
+class Cell(Persistent):
+    def __init__(self, v=0):
+        self.v = v
+
+
+def fail(inp, exp, obs, cases):
+    return {'found': True, 'input': inp, 'expected': exp, 'observed': obs, 'cases': cases}
+
+
+def connection_scenarios():
+    import ZODB
+    from ZODB.DemoStorage import DemoStorage
+    from ZODB.POSException import ConflictError, ReadConflictError
+    cases = 0
+    for kind in ('file', 'demo'):
+        d = tempfile.mkdtemp(prefix='c03c-')
+        try:
+            if kind == 'file':
+                from ZODB.FileStorage import FileStorage
+                st = FileStorage(os.path.join(d, 'Data.fs'))
+            else:
+                st = DemoStorage()
+            db = ZODB.DB(st)
+            tm0 = transaction.TransactionManager()
+            c0 = db.open(tm0)
+            c0.root()['c'] = Counter()
+            c0.root()['x'] = Cell(100)
+            c0.root()['y'] = Cell(0)
+            tm0.commit()
+            c0.root()['c'].value = 1
+            tm0.commit()
+            # ---- the writer's base revision is packed away while its transaction is open
+            tmA, tmB = transaction.TransactionManager(), transaction.TransactionManager()
+            cA, cB = db.open(tmA), db.open(tmB)
+            a = cA.root()['c']
+            base = a.value
+            cB.root()['c'].value += 2
+            tmB.commit()
+            time.sleep(0.01)
+            try:
+                db.pack(time.time())
+                packed = True
+            except Exception:  # noqa
+                packed = False
+            a.value += 5
+            cases += 1
+            try:
+                tmA.commit()
+                out = 'committed'
+            except ConflictError:
+                tmA.abort()
+                out = 'conflict'
+            c0.sync()
+            val = c0.root()['c'].value
+            ok = (out == 'conflict' and val == base + 2) or (out == 'committed' and val == base + 7)
+            if not ok:
+                return fail({'storage': kind, 'scenario': 'writer A reads a resolvable counter (%d); B adds 2 and commits; '
+                             'pack removes the revision A started from; A adds 5 and commits' % base, 'packed': packed},
+                            'ConflictError with %d stored, or the merge %d' % (base + 2, base + 7),
+                            '%s, value %d (the other writer\'s change is lost)' % (out, val), cases)
+            cA.close()
+            cB.close()
+            # ---- declared read dependencies survive savepoint rollbacks
+            for how in ('none', 'rollback-earlier-savepoint', 'rollback-savepoint-taken-before-joining'):
+                tmA, tmB = transaction.TransactionManager(), transaction.TransactionManager()
+                cA, cB = db.open(tmA), db.open(tmB)
+                tmA.begin()
+                if how == 'rollback-savepoint-taken-before-joining':
+                    sp = tmA.savepoint()
+                    x = cA.root()['x']
+                    x.v
+                    cA.readCurrent(x)
+                    cA.root()['y'].v = -1
+                    sp.rollback()
+                else:
+                    x = cA.root()['x']
+                    x.v
+                    cA.readCurrent(x)
+                    if how == 'rollback-earlier-savepoint':
+                        sp = tmA.savepoint()
+                        cA.root()['y'].v = -1
+                        sp.rollback()
+                if how == 'rollback-savepoint-taken-before-joining':
+                    # the declaration itself was made after the savepoint: redo it, as a program would
+                    x = cA.root()['x']
+                    cA.readCurrent(x)
+                    sp2 = tmA.savepoint()
+                    cA.root()['y'].v = -2
+                    sp2.rollback()
+                cA.root()['y'].v = x.v * 2
+                cB.root()['x'].v += 1
+                tmB.commit()
+                cases += 1
+                try:
+                    tmA.commit()
+                    out = 'committed'
+                except ReadConflictError:
+                    tmA.abort()
+                    out = 'read-conflict'
+                except ConflictError:
+                    tmA.abort()
+                    out = 'conflict'
+                c0.sync()
+                if out == 'committed':
+                    return fail({'storage': kind, 'scenario': 'A: readCurrent(x); savepoint handling: %s; y = 2*x; '
+                                 'B changes x and commits; A commits' % how},
+                                'ReadConflictError, nothing stored', 'commit accepted, y == %r derived from the stale x'
+                                % c0.root()['y'].v, cases)
+                cA.close()
+                cB.close()
+            c0.close()
+            db.close()
+        finally:
+            shutil.rmtree(d, ignore_errors=True)
+    return {'found': False, 'cases': cases}
 
 
 def search(func, candidate, seed, tier, obligation=''):
     logging.disable(logging.CRITICAL)
-    return storage_checks.check_c03(seed, tier)
+    r = storage_checks.check_c03(seed, tier)
+    if r.get('found'):
+        return r
+    r2 = connection_scenarios()
+    r2['cases'] = r2.get('cases', 0) + r.get('cases', 0)
+    return r2
